@@ -147,6 +147,50 @@ def run_kani(scratch, crate, harnesses, timeout=900, jobs=None, extra=None, unwi
     return res
 
 
+def run_kani_batch(scratch, crate, harnesses, timeout=1800, extra=None, mem_gb=24):
+    """All harnesses in ONE cargo-kani process, sequentially (for many cheap harnesses)."""
+    import signal
+    import subprocess
+    env = dict(os.environ)
+    env.update(KANI_ENV)
+    env["CARGO_TARGET_DIR"] = os.path.join(CACHE, "kani-target")
+    cmd = ["cargo", "kani", "-p", crate, "-Z", "function-contracts", "-Z", "stubbing"]
+    for h in harnesses:
+        cmd += ["--harness", h]
+    if extra:
+        cmd += extra
+    shell = "ulimit -v %d; exec %s" % (mem_gb * 1024 * 1024, " ".join("'" + c + "'" for c in cmd))
+    t0 = time.time()
+    p = subprocess.Popen(["bash", "-c", shell], cwd=scratch.root, env=env, stdout=subprocess.PIPE, stderr=subprocess.PIPE,
+                         text=True, start_new_session=True)
+    timed_out = False
+    try:
+        out, err = p.communicate(timeout=timeout)
+    except subprocess.TimeoutExpired:
+        timed_out = True
+        try:
+            os.killpg(p.pid, signal.SIGKILL)
+        except ProcessLookupError:
+            pass
+        out, err = p.communicate()
+    log = os.path.join(WORK, scratch.prop, "kani-%s-batch-%s.log" % (crate, re.sub(r"\W", "_", harnesses[0])[:40]))
+    os.makedirs(os.path.dirname(log), exist_ok=True)
+    open(log, "w").write("$ " + " ".join(cmd) + "\n" + (out or "") + "\n--- stderr ---\n" + (err or ""))
+    res = parse_kani(out or "", err or "", harnesses)
+    short = "cargo kani -p %s -Z function-contracts -Z stubbing --harness <%d harnesses>" % (crate, len(harnesses))
+    for h in harnesses:
+        r = res.setdefault(h, {"status": "missing", "failed_checks": []})
+        r.update({"log": log, "cmd": short, "wall": time.time() - t0, "timeout": timed_out})
+        if r["status"] == "missing":
+            if timed_out:
+                r["status"] = "timeout"
+            elif "internal compiler error" in (err or "") or "Kani unexpectedly panicked" in (err or ""):
+                r["status"], r["detail"] = "ice", (err or "")[-1500:]
+            elif "error: could not compile" in (err or "") or re.search(r"^error(\[E\d+\])?:", err or "", re.M):
+                r["status"], r["detail"] = "compile-error", (err or "")[-2500:]
+    return res
+
+
 def parse_kani(out, err, harnesses):
     """Split Kani's output per harness."""
     res = {}
@@ -158,6 +202,7 @@ def parse_kani(out, err, harnesses):
         name, body = parts[i], parts[i + 1]
         short = name.split("::")[-1]
         r = analyse_body(body)
+        r["stubs"] = re.findall(r"- Stub: (.*)", body)
         for h in harnesses:
             if h == name or h.split("::")[-1] == short:
                 res[h] = r
